@@ -12,6 +12,7 @@ import (
 
 // Unit is one verification unit: a function, a case of a switch inside a function, or a closure.
 type Unit struct {
+	defTag map[string]string // user axiom formula -> axiom block name
 	invTag map[string]string // assumed loop-invariant formula -> loopID#name
 	g       *Gen
 	name    string
@@ -1131,6 +1132,7 @@ func (u *Unit) filterInvHyps(lb *Block, name string, o *Obligation) {
 	if allowed == nil {
 		return
 	}
+	o.dropAxioms = u.axiomsNotUsed(lb, name)
 	var hyps []string
 	for _, h := range o.Hyps {
 		if tag, ok := u.invTag[h]; ok {
